@@ -233,6 +233,9 @@ def finish(rep, level, explanation, checker_cmd):
     # replay files
     replay_dir = os.path.join(BUILD, "replay")
     os.makedirs(replay_dir, exist_ok=True)
+    for old in os.listdir(replay_dir):
+        if old.startswith(rep.pid + "_"):
+            os.unlink(os.path.join(replay_dir, old))
     for v, _ in listed:
         print("KNOWN-FINDING: property=%s rule=%s %s at %s" % (rep.pid, v["rule"], v["key"], v["where"]))
     for i, (v, _) in enumerate(unlisted):
